@@ -675,6 +675,10 @@ func checkC17(p *core.Program, r *core.Report) {
 	sort.Slice(gl, func(i, j int) bool { return gl[i].Name < gl[j].Name })
 	mut := mutatedFields(p, ctx, gl)
 	checkOwnership(p, r, gl, mut, "O17.6")
+	// ---- O17.10: the extractor implements only part of frontend.API / frontend.Compiler; a definition that calls one of
+	// the methods it leaves as panic("implement me") compiles and proves as before, but extraction aborts (the panic is
+	// swallowed and an empty model is returned)
+	checkExtractorSupports(p, r, gl)
 	// ---- O17.9
 	checkExtractOutputFile(p, r)
 	// ---- O17.8
@@ -979,4 +983,90 @@ func evalIntFormX(t, recv *tf.Term, ints map[string]int64) (int64, bool) {
 		v += coefs[i] * x
 	}
 	return v, true
+}
+
+// checkExtractorSupports: the set of unimplemented methods is read off the extractor's own source (methods of its code
+// extractor type whose body is nothing but a panic), so it follows the pinned dependency.
+func checkExtractorSupports(p *core.Program, r *core.Report, defs []*gadgetInfo) {
+	unimpl := map[string]bool{}
+	nMethods := 0
+	for _, pkg := range p.SSA.AllPackages() {
+		if !strings.HasSuffix(pkg.Pkg.Path(), "gnark-lean-extractor/v2/extractor") {
+			continue
+		}
+		pkg.Build() // dependency bodies are not built by default
+		for _, m := range pkg.Members {
+			t, ok := m.(*ssa.Type)
+			if !ok {
+				continue
+			}
+			ms := p.SSA.MethodSets.MethodSet(types.NewPointer(t.Type()))
+			for i := 0; i < ms.Len(); i++ {
+				fn := p.SSA.MethodValue(ms.At(i))
+				if fn == nil || len(fn.Blocks) == 0 || !implementsAPIMethod(ms.At(i).Obj().Name()) {
+					continue
+				}
+				nMethods++
+				if len(fn.Blocks) == 1 {
+					if _, isPanic := fn.Blocks[0].Instrs[len(fn.Blocks[0].Instrs)-1].(*ssa.Panic); isPanic {
+						unimpl[fn.Name()] = true
+					}
+				}
+			}
+		}
+	}
+	if nMethods == 0 {
+		r.Undecided("O17.10", "extractor: implemented API", "-", "cannot find the extractor's API implementation in the loaded program")
+		return
+	}
+	var bad []string
+	nCalls := 0
+	seen := map[*ssa.Function]bool{}
+	var scan func(fn *ssa.Function)
+	scan = func(fn *ssa.Function) {
+		if fn == nil || seen[fn] || len(fn.Blocks) == 0 {
+			return
+		}
+		seen[fn] = true
+		for _, b := range fn.Blocks {
+			for _, in := range b.Instrs {
+				c, ok := in.(ssa.CallInstruction)
+				if !ok {
+					continue
+				}
+				com := c.Common()
+				if com.IsInvoke() {
+					tn := com.Value.Type().String()
+					if strings.HasSuffix(tn, "gnark/frontend.API") || strings.HasSuffix(tn, "gnark/frontend.Compiler") {
+						nCalls++
+						if unimpl[com.Method.Name()] {
+							bad = append(bad, fmt.Sprintf("%s calls %s at %s", core.FuncName(fn), com.Method.Name(), p.Pos(in.Pos())))
+						}
+					}
+					continue
+				}
+				if sc := com.StaticCallee(); sc != nil && core.InRepo(pkgPathOf(sc)) && hasAPIParam(sc) {
+					scan(sc)
+				}
+			}
+		}
+		for _, a := range fn.AnonFuncs {
+			scan(a)
+		}
+	}
+	for _, d := range defs {
+		scan(d.Fn)
+	}
+	sort.Strings(bad)
+	var ul []string
+	for m := range unimpl {
+		ul = append(ul, m)
+	}
+	sort.Strings(ul)
+	r.Check(len(bad) == 0, "O17.10", "definition code: only API methods the extractor implements", "-", fmt.Sprintf("%d API/Compiler calls in %d definition functions; the extractor leaves unimplemented: %s", nCalls, len(seen), strings.Join(ul, ", ")),
+		"extraction aborts on: "+strings.Join(bad, "; ")+" — the extractor's method is a bare panic, which ExtractCircuits swallows: the extracted model is empty while compilation and proving are unaffected")
+}
+
+func implementsAPIMethod(name string) bool {
+	return name != "" && name[0] >= 'A' && name[0] <= 'Z'
 }
